@@ -283,6 +283,11 @@ def gen_tokenless():
         st.builds(lambda p, g, a_, b_: f"{p}{g}:{a_} + {g}:{b_}", pre, stage, num, num),
         st.builds(lambda p, g, a_: f"{p}{g} + {a_}", pre, stage, num),
         st.builds(lambda tr, a_, b_: f"{G.join(G.tokens_of(tr))} + .:{a_} + {b_}:.", e, num, num),
+        # terms made of numeric literals only (there is no non-literal factor to point the error at)
+        st.builds(lambda p, a_, b_: f"{p}{a_}:{b_}", pre, num, num),
+        st.builds(lambda p, a_, b_, x: f"{p}{a_}:{b_} + {x}", pre, num, num, name),
+        st.builds(lambda p, a_, b_: f"{p}{a_}:{b_}:1 + {b_}:{a_}", pre, num, num),
+        st.builds(lambda p, a_, b_, x: f"{p}{x} + {a_}:{b_}:2 | {a_}:{b_}", pre, num, num, name),
     )
     return st.builds(lambda s_, c: {"s": s_, "cfg": c}, t, config)
 
